@@ -174,31 +174,40 @@ Proof. intros Hb. rewrite send_idle by exact Hb. cbv zeta. destruct (tx len =? 0
 Definition Draining (s : st) : Prop :=
   Core s /\ (busy (ch s) = false -> deq_ctx tx (log s) = Some (now s)).
 
+(* Buffer::dequeue of the model *)
+Definition dequeued (s : st) (r : list (N * N)) (len : N) : st :=
+  set_ch s {| busy := false; finish := finish (ch s); buffer := r; acc := acc (ch s) - len |}.
+
+Lemma Draining_step s m len r :
+  Draining s -> busy (ch s) = false -> buffer (ch s) = (m, len) :: r ->
+  Draining (send (dequeued s r len) m len true).
+Proof.
+  intros [HC Hd] Hb Eb. pose proof HC as [HS Hw Hc Hq Ha Hf Hu]. rewrite Hb in *.
+  set (s1 := dequeued s r len).
+  assert (Hb1 : busy (ch s1) = false) by reflexivity.
+  assert (HC1 : Core (send s1 m len true)).
+  { apply Core_start; cbn [s1 dequeued set_ch ch q log busy finish buffer acc]; try assumption.
+    - apply Hf; reflexivity.
+    - rewrite Ha, Eb, qsum_cons. cbn [snd]. lia.
+    - rewrite Hq, Eb. cbn [hd_error tl]. repeat split. apply Hd; reflexivity. }
+  split; [exact HC1|]. intros Hb2. rewrite start_busy_iff in Hb2 by exact Hb1.
+  rewrite start_log, start_now by exact Hb1. cbn [deq_ctx].
+  destruct (tx len =? 0); [|discriminate]. apply Hd; reflexivity.
+Qed.
+
 Lemma drain_inv k : forall s,
   Draining s ->
   Draining (drain k s) /\
   ((length (buffer (ch s)) <= k)%nat -> busy (ch (drain k s)) = false -> buffer (ch (drain k s)) = []).
 Proof.
-  induction k as [|k IH]; intros s HDr; pose proof HDr as [HC Hd]; cbn [Model.drain].
+  induction k as [|k IH]; intros s HDr; cbn [Model.drain].
   - split; [exact HDr|]. intros Hl _. destruct (buffer (ch s)); [reflexivity|cbn in Hl; lia].
   - destruct (busy (ch s)) eqn:Hb.
     + split; [exact HDr|]. intros _ Hb'. congruence.
     + destruct (buffer (ch s)) as [|[m len] r] eqn:Eb.
       * split; [exact HDr|]. intros _ _. congruence.
-      * pose proof HC as [HS Hw Hc Hq Ha Hf Hu]. rewrite Hb in *.
-        set (s1 := set_ch s {| busy := false; finish := finish (ch s); buffer := r; acc := acc (ch s) - len |}).
-        assert (Hb1 : busy (ch s1) = false) by reflexivity.
-        assert (HC1 : Core (send s1 m len true)).
-        { apply Core_start; cbn [s1 set_ch ch q log busy finish buffer acc]; try assumption.
-          - apply Hf; reflexivity.
-          - rewrite Ha, Eb, qsum_cons. cbn [snd]. lia.
-          - rewrite Hq, Eb. cbn [hd_error tl]. repeat split. apply Hd; reflexivity. }
-        assert (HD1 : Draining (send s1 m len true)).
-        { split; [exact HC1|]. intros Hb2. rewrite start_busy_iff in Hb2 by exact Hb1.
-          rewrite start_log, start_now by exact Hb1. cbn [deq_ctx].
-          destruct (tx len =? 0); [|discriminate]. apply Hd; reflexivity. }
-        destruct (IH _ HD1) as [H1 H2]. split; [exact H1|].
-        intros Hl. apply H2. rewrite start_buffer by exact Hb1. cbn [s1 set_ch ch buffer]. cbn [length] in Hl. lia.
+      * destruct (IH _ (Draining_step s m len r HDr Hb Eb)) as [H1 H2]. split; [exact H1|].
+        intros Hl. apply H2. rewrite start_buffer by reflexivity. cbn [dequeued set_ch ch buffer]. cbn [length] in Hl. lia.
 Qed.
 
 (* the Unbusy event stamped [finish] has just been fetched *)
